@@ -1,8 +1,11 @@
 package main
 
 import (
+	"bytes"
 	"encoding/json"
+	"errors"
 	"fmt"
+	"io"
 	"sort"
 	"strconv"
 	"strings"
@@ -20,6 +23,46 @@ func init() {
 
 type c15Case struct {
 	Dump *gen.Dump `json:"dump"`
+	// Tail: "" the dump as printed; "garbled": cut after CutLine lines and followed by a function line without
+	// its file line (the snapshot comes back together with a parse error); "readerr": the source fails after
+	// CutLine lines (the snapshot comes back together with the reader's error).
+	Tail    string `json:"tail,omitempty"`
+	CutLine int    `json:"cut_line,omitempty"`
+}
+
+type c15FailingReader struct {
+	data []byte
+}
+
+func (f *c15FailingReader) Read(p []byte) (int, error) {
+	if len(f.data) == 0 {
+		return 0, errors.New("connection reset by peer")
+	}
+	n := copy(p, f.data)
+	f.data = f.data[n:]
+	return n, nil
+}
+
+// c15Scan returns the snapshot of the case under the given options, and whether it came with an error.
+func c15Scan(c *c15Case, opts *stack.Opts) (*stack.Snapshot, error) {
+	in := c.Dump.Render()
+	if c.Tail == "" {
+		s, _, _, err := scanAll(in, opts)
+		return s, err
+	}
+	lines := bytes.SplitAfter(in, []byte("\n"))
+	k := c.CutLine
+	if k > len(lines) {
+		k = len(lines)
+	}
+	cut := bytes.Join(lines[:k], nil)
+	if c.Tail == "garbled" {
+		cut = append(cut, []byte("main.broken(0x1)\nthis is not a file line\n")...)
+		s, _, _, err := scanAll(cut, opts)
+		return s, err
+	}
+	s, _, err := stack.ScanSnapshot(&c15FailingReader{data: cut}, io.Discard, opts)
+	return s, err
 }
 
 type ptrOcc struct {
@@ -152,14 +195,26 @@ func keysOf(m map[string]bool) []string {
 }
 
 func c15Eval(r *core.Run, c *c15Case) {
-	in := c.Dump.Render()
-	on, _, _, _ := scanAll(in, namingOpts())
-	off, _, _, _ := scanAll(in, plainOpts())
+	on, err := c15Scan(c, namingOpts())
+	off, _ := c15Scan(c, plainOpts())
 	r.Eval(2)
-	report := func(key, what string) { r.Violation(key, what, "names", c) }
+	report := func(key, what string) {
+		if c.Tail != "" {
+			what += fmt.Sprintf(" (snapshot returned together with the error %v)", err)
+		}
+		r.Violation(key, what, "names", c)
+	}
 	if on == nil || off == nil {
+		if c.Tail != "" {
+			return // cut before the first goroutine: nothing to label
+		}
 		report("nosnapshot", "generated dump not parsed")
 		return
+	}
+	if c.Tail != "" {
+		if err != nil && err != io.EOF {
+			r.Count("snapshots_returned_with_an_error", 1)
+		}
 	}
 	if k, w := checkNames(on); k != "" {
 		report(k, w)
@@ -196,11 +251,17 @@ func genC15(r *core.Run, i int) *c15Case {
 	if np >= 60 {
 		cfg.MaxG, cfg.MaxFrames, cfg.MaxArgs = 12, 10, 8
 	}
-	return &c15Case{Dump: gen.GenDump(rr, cfg, rr.Intn(864))}
+	c := &c15Case{Dump: gen.GenDump(rr, cfg, rr.Intn(864))}
+	if i%5 == 3 {
+		// the labelling laws hold for every snapshot handed out, also one that comes with an error
+		c.Tail = []string{"garbled", "readerr"}[rr.Intn(2)]
+		c.CutLine = 3 + rr.Intn(3+bytes.Count(c.Dump.Render(), []byte("\n")))
+	}
+	return c
 }
 
 func runC15(r *core.Run) {
-	r.Rule("dumps printed by G-DUMP whose pointer-like values are drawn from pools of 0..500 distinct addresses (forced recurrence across goroutines, frames and nested aggregate fields; values at the classification boundaries 512Ki, 512Ki+1, 2^63-2, 2^63-1), parsed with naming on and off; " +
+	r.Rule("dumps printed by G-DUMP whose pointer-like values are drawn from pools of 0..500 distinct addresses (forced recurrence across goroutines, frames and nested aggregate fields; values at the classification boundaries 512Ki, 512Ki+1, 2^63-2, 2^63-1), parsed with naming on and off; one case in five is cut at a line and ends in a malformed frame or in a reader error, so that the snapshot is handed out together with an error; " +
 		"the labelling laws (same value <=> same name, recurring => named, names #1..#k dense, ascending by address within 'recurs in the first goroutine' and within 'never in the first goroutine', first group before second, non-pointers never named, naming off => no names, nothing else changes) are checked literally. distinct by hash; non-trivial = >= 2 distinct pointer values")
 	r.Assume("pointers occurring once in the first goroutine may or may not be named (not stated)")
 	n := r.N(150000, 600000)
